@@ -47,6 +47,8 @@ func (c *Ctx) scalerTable() (known bool, bad string, cells int) {
 		switch {
 		case m.panicked != "":
 			return true, desc + " panics: " + m.panicked, cells
+		case m.orderBad != "":
+			return true, desc + ": " + m.orderBad, cells
 		case !out.followed:
 			if os.Getenv("MOVEDEBUG") != "" {
 				fmt.Println("MOVEDEBUG not followed:", desc)
@@ -141,6 +143,8 @@ func (c *Ctx) linearRegressorTable() (known bool, bad string, cells int) {
 		switch {
 		case m.panicked != "":
 			return true, desc + " panics: " + m.panicked, cells
+		case m.orderBad != "":
+			return true, desc + ": " + m.orderBad, cells
 		case !out.followed:
 			if os.Getenv("MOVEDEBUG") != "" {
 				fmt.Println("MOVEDEBUG not followed:", desc)
@@ -264,6 +268,8 @@ func (c *Ctx) preluOperatorTable() (known bool, bad string, cells int) {
 		switch {
 		case m.panicked != "":
 			return true, desc + " panics: " + m.panicked, cells
+		case m.orderBad != "":
+			return true, desc + ": " + m.orderBad, cells
 		case !out.followed:
 			if os.Getenv("MOVEDEBUG") != "" {
 				fmt.Println("MOVEDEBUG not followed:", desc)
@@ -350,6 +356,8 @@ func (c *Ctx) preluOperatorTable() (known bool, bad string, cells int) {
 		switch {
 		case m.panicked != "":
 			return true, desc + " panics: " + m.panicked, cells
+		case m.orderBad != "":
+			return true, desc + ": " + m.orderBad, cells
 		case !out.followed:
 			if os.Getenv("MOVEDEBUG") != "" {
 				fmt.Println("MOVEDEBUG not followed:", desc)
@@ -466,4 +474,208 @@ func (c *Ctx) sigmoidOperatorTable() (known bool, bad string, cells int) {
 		return false, "", cells
 	}
 	return true, "", cells
+}
+
+// ---- ReduceMax, ReduceMin, ArgMax on concrete integers (C09) ------------------------------------------------------
+
+// reductionOperatorTable walks the operator on int32 tensors of distinct values (gorgonia's Max / Min / Argmax along
+// axes enter as their contracts on concrete integers): for every subset of at most two axes in both spellings (every
+// single axis for ArgMax), keepdims on and off, and no axes at all, the result has the ONNX shape and holds the
+// largest / smallest element (the position of the largest) of exactly the requested axes; an axis outside
+// [-rank, rank) is refused.
+func (c *Ctx) reductionOperatorTable(name string) (known bool, bad string, cells int) {
+	m := c.newMoveRun(name)
+	if m == nil {
+		return false, "", 0
+	}
+	m.dtype, m.dataLists = "Int32", types.Typ[types.Int32]
+	shapes := [][]int64{{4}, {3, 4}, {2, 3, 2}, {2, 1, 3}, {1, 3}}
+	if c.tier == "thorough" {
+		shapes = append(shapes, []int64{2, 2, 3, 2}, []int64{1, 1})
+	}
+	for _, sh := range shapes {
+		r := int64(len(sh))
+		total := prodInts(sh)
+		vals := make([]int64, total)
+		xe := make([]pval, total)
+		for i := range vals {
+			vals[i] = (int64(i)*7+3)%total*2 - total + 1 // a permutation of distinct values, negative and positive (total and 7 coprime for the shapes used)
+			xe[i] = pval{k: pInt, i: vals[i], s: "int32"}
+		}
+		seen := map[int64]bool{}
+		for _, v := range vals {
+			if seen[v] {
+				return false, "", cells // not distinct: the table's own mistake, nothing is claimed
+			}
+			seen[v] = true
+		}
+		var requests [][]int64
+		if name == "ArgMax" {
+			for a := -r; a < r; a++ {
+				requests = append(requests, []int64{a})
+			}
+		} else {
+			requests = append(requests, nil)
+			for _, sub := range subsetsOf(r) {
+				if len(sub) > 2 {
+					continue
+				}
+				for _, sp := range axisSpellings(sub, r) {
+					requests = append(requests, sp)
+				}
+			}
+		}
+		for _, req := range requests {
+			for _, keep := range []int64{0, 1} {
+				kd := keep
+				attrs := []moveAttr{{name: "keepdims", i: &kd}}
+				if name == "ArgMax" {
+					ax := req[0]
+					attrs = append(attrs, moveAttr{name: "axis", i: &ax})
+				} else if req != nil {
+					attrs = append(attrs, moveAttr{name: "axes", ints: req})
+				}
+				out := m.cell(attrs, []*moveTensor{{shape: sh, elems: xe}})
+				desc := fmt.Sprintf("%s on a tensor of shape %s, axes %s, keepdims %d", name, fmtInts(sh), fmtInts(req), keep)
+				switch {
+				case m.panicked != "":
+					return true, desc + " panics: " + m.panicked, cells
+				case m.orderBad != "":
+					return true, desc + ": " + m.orderBad, cells
+				case !out.followed:
+					if os.Getenv("MOVEDEBUG") != "" {
+						fmt.Println("MOVEDEBUG not followed:", desc)
+					}
+					return false, "", cells
+				case out.isErr:
+					return true, desc + " is refused", cells
+				}
+				cells++
+				gone := map[int64]bool{}
+				for _, a := range req {
+					if a < 0 {
+						a += r
+					}
+					gone[a] = true
+				}
+				all := req == nil
+				var wsh []int64
+				for d := int64(0); d < r; d++ {
+					switch {
+					case all || gone[d]:
+						if keep == 1 {
+							wsh = append(wsh, 1)
+						}
+					default:
+						wsh = append(wsh, sh[d])
+					}
+				}
+				if fmtInts(out.shape) != fmtInts(wsh) {
+					return true, fmt.Sprintf("%s has shape %s, ONNX prescribes %s", desc, fmtInts(out.shape), fmtInts(wsh)), cells
+				}
+				// expected values, group by the coordinates that stay
+				type acc struct {
+					best, at int64
+					set      bool
+				}
+				groups := map[int64]*acc{}
+				var order []int64
+				co := make([]int64, r)
+				for f := int64(0); f < total; f++ {
+					rem := f
+					for d := r - 1; d >= 0; d-- {
+						co[d] = rem % sh[d]
+						rem /= sh[d]
+					}
+					o, along := int64(0), int64(0)
+					for d := int64(0); d < r; d++ {
+						if all || gone[d] {
+							along = along*sh[d] + co[d]
+						} else {
+							o = o*sh[d] + co[d]
+						}
+					}
+					g := groups[o]
+					if g == nil {
+						g = &acc{}
+						groups[o] = g
+						order = append(order, o)
+					}
+					better := !g.set || (name == "ReduceMin" && vals[f] < g.best) || (name != "ReduceMin" && vals[f] > g.best)
+					if better {
+						g.best, g.at, g.set = vals[f], along, true
+					}
+				}
+				if int64(len(out.elems)) != int64(len(groups)) {
+					return false, "", cells
+				}
+				for o := int64(0); o < int64(len(groups)); o++ {
+					want := groups[o].best
+					if name == "ArgMax" {
+						want = groups[o].at
+					}
+					e := out.elems[o]
+					if e.k != pInt {
+						return false, "", cells
+					}
+					if e.i != want {
+						return true, fmt.Sprintf("%s: element %d of the result is %d, the reduction over exactly the requested axes gives %d", desc, o, e.i, want), cells
+					}
+					if name == "ArgMax" && e.s != "int64" {
+						return true, fmt.Sprintf("%s: the result holds %s values, ONNX prescribes int64", desc, e.s), cells
+					}
+				}
+			}
+		}
+		// an axis outside [-rank, rank) is refused
+		for _, badAx := range []int64{r, -r - 1} {
+			one := int64(1)
+			attrs := []moveAttr{{name: "keepdims", i: &one}}
+			if name == "ArgMax" {
+				ax := badAx
+				attrs = append(attrs, moveAttr{name: "axis", i: &ax})
+			} else {
+				attrs = append(attrs, moveAttr{name: "axes", ints: []int64{badAx}})
+			}
+			out := m.cell(attrs, []*moveTensor{{shape: sh, elems: xe}})
+			desc := fmt.Sprintf("%s on a tensor of shape %s with axis %d (outside [-%d, %d))", name, fmtInts(sh), badAx, r, r)
+			switch {
+			case m.panicked != "":
+				return true, desc + " panics: " + m.panicked, cells
+			case !out.followed:
+				if os.Getenv("MOVEDEBUG") != "" {
+					fmt.Println("MOVEDEBUG not followed:", desc)
+				}
+				return false, "", cells
+			case !out.isErr:
+				return true, desc + " is answered with a tensor instead of an error", cells
+			}
+			cells++
+		}
+	}
+	if unc := m.cov.uncovered(c); len(unc) > 0 {
+		c.declined(name+" operator table", unc)
+		return false, "", cells
+	}
+	return true, "", cells
+}
+
+func ruleReductionOperatorTables(c *Ctx, prop string) {
+	for _, name := range []string{"ReduceMax", "ReduceMin", "ArgMax"} {
+		oi := c.opByName(name)
+		if oi == nil || oi.methods["Apply"] == nil {
+			continue
+		}
+		site := c.pos(oi.methods["Apply"].Pos())
+		key := "R51:reduction-table:" + name
+		known, bad, cells := c.reductionOperatorTable(name)
+		switch {
+		case !known:
+			c.note("R51", key, site, "the operator table cannot follow this code to one outcome per cell; R9f / R20 / R34 decide")
+		case bad != "":
+			c.violate("R51", key, site, bad)
+		default:
+			c.discharge("R51", key, site, fmt.Sprintf("%d cells on int32 tensors of distinct values (rank 1..3 with unit extents, every subset of at most two axes in both spellings, keepdims on and off, no axes; axes out of range refused): ONNX shape, and every element is the reduction over exactly the requested axes", cells))
+		}
+	}
 }
